@@ -11,8 +11,10 @@
 //!   round, as long as the back-off is below 300 ms;
 //! * nothing is started at or after `start + timeout`;
 //! * a TCP connection that answered stays open and is used again by a later lookup; one that
-//!   failed, or that the server closed after answering, is replaced by a new one (the pool is
-//!   expected to recover from an idle connection the peer closed: the server is healthy).
+//!   failed is replaced by a new one; one that the server closed after answering (while idle) is
+//!   still held by the pool: hickory's own connection handle then reports back-pressure (`Busy`) at
+//!   once, the connection is dropped and the server retried after the back-off on a new connection
+//!   (the server is healthy: the lookup has to recover).
 //!
 //! The walk answers one question only: *does the time budget allow a definitive response?* Where
 //! the documentation leaves a choice open the caller walks every admissible variant (server order
@@ -55,13 +57,13 @@ pub struct Variant {
 }
 
 /// Returns the outcome and the number of open-TCP choice points met.
-pub fn walk(servers: &[Srv], order: &[usize], conc: usize, t_ms: u64, v: &Variant, alive0: &[bool]) -> (WalkOut, usize) {
+pub fn walk(servers: &[Srv], order: &[usize], conc: usize, t_ms: u64, v: &Variant, alive0: &[u8]) -> (WalkOut, usize) {
     let mut choice_points = 0usize;
     let out = walk_inner(servers, order, conc, t_ms, v, alive0, &mut choice_points);
     (out, choice_points)
 }
 
-fn walk_inner(servers: &[Srv], order: &[usize], conc: usize, t_ms: u64, v: &Variant, alive0: &[bool], choice_points: &mut usize) -> WalkOut {
+fn walk_inner(servers: &[Srv], order: &[usize], conc: usize, t_ms: u64, v: &Variant, alive0: &[u8], choice_points: &mut usize) -> WalkOut {
     let mut t: u64 = 0;
     let mut queue: VecDeque<usize> = order.iter().copied().collect();
     let mut busy: Vec<usize> = vec![];
@@ -72,7 +74,8 @@ fn walk_inner(servers: &[Srv], order: &[usize], conc: usize, t_ms: u64, v: &Vari
     let mut ccnt: BTreeMap<usize, usize> = BTreeMap::new();
     let mut resets_seen: u32 = 0;
     // does the pool hold a usable (established, not yet failed) TCP connection to the server?
-    let mut alive: Vec<bool> = (0..servers.len()).map(|i| alive0.get(i).copied().unwrap_or(false)).collect();
+    // 0 = none, 1 = open, 2 = still held by the pool although the server closed it while idle
+    let mut alive: Vec<u8> = (0..servers.len()).map(|i| alive0.get(i).copied().unwrap_or(0)).collect();
     let mut rounds = 0;
 
     loop {
@@ -110,7 +113,7 @@ fn walk_inner(servers: &[Srv], order: &[usize], conc: usize, t_ms: u64, v: &Vari
         let mut results: Vec<(u64, u8, usize, Out)> = vec![];
         for &s in &batch {
             let mut tcp = udp_off_all || udp_off[s];
-            if !tcp && alive[s] && servers[s].tcp.is_some() {
+            if !tcp && alive[s] != 0 && servers[s].tcp.is_some() {
                 let i = *choice_points;
                 *choice_points += 1;
                 tcp = v.open_tcp_choices.get(i).copied().unwrap_or(false);
@@ -153,18 +156,26 @@ fn attempt(
     cnt: &mut BTreeMap<(usize, bool), usize>,
     ccnt: &mut BTreeMap<usize, usize>,
     resets_seen: &mut u32,
-    alive: &mut [bool],
+    alive: &mut [u8],
 ) -> (u64, Out) {
     let mut now = t;
     let mut retried = false;
     loop {
-        if tcp && !alive[s] {
+        // a connection the pool already held when this attempt began (not one opened for it)
+        let reused = tcp && alive[s] == 1 && !retried;
+        if tcp && alive[s] == 2 {
+            // the pool still holds a connection the server closed while it was idle: hickory's
+            // handle reports back-pressure (Busy) at once for it, and the connection is dropped
+            alive[s] = 0;
+            return (now, Out::Busy);
+        }
+        if tcp && alive[s] == 0 {
             // no usable connection: open one
             let k = ccnt.entry(s).or_insert(0);
             let c = servers[s].tcp_conn.at(*k);
             *k += 1;
             match c {
-                ConnStep::Ok => alive[s] = true,
+                ConnStep::Ok => alive[s] = 1,
                 ConnStep::Refused(l) | ConnStep::Timeout(l) => return (now + l, Out::Fail),
             }
         }
@@ -173,7 +184,11 @@ fn attempt(
         *k += 1;
         // a transport error fails the connection; a response (whatever it says) keeps it
         if tcp {
-            alive[s] = matches!(step, Step::Answer(_) | Step::NoData(_) | Step::NxDomain(_) | Step::Truncated(_) | Step::ServFail(_) | Step::Refused(_));
+            alive[s] = match step {
+                Step::Answer(_) | Step::NoData(_) | Step::NxDomain(_) | Step::Truncated(_) | Step::ServFail(_) | Step::Refused(_) => 1,
+                Step::AnswerClose(_) => 2,
+                _ => 0,
+            };
         }
         return match step {
             Step::Answer(l) | Step::AnswerClose(l) | Step::NoData(l) => (now + l, Out::Definitive),
@@ -181,6 +196,17 @@ fn attempt(
             Step::Truncated(l) => (now + l, if tcp { Out::Unjudged } else { Out::RetryTcp }),
             Step::Silent => (now + t_ms, Out::Fail),
             Step::IoErr(l) => (now + l, Out::Fail),
+            // documented (NameServer::send_inner): a REUSED connection the peer closed is not a
+            // server fault - reconnect and retry once; on a connection opened for this attempt
+            // it is a plain failure
+            Step::CloseNoAnswer(l) => {
+                if reused {
+                    retried = true;
+                    now += l;
+                    continue;
+                }
+                (now + l, Out::Fail)
+            }
             Step::Reset(l) => {
                 let bit = *resets_seen;
                 *resets_seen += 1;
@@ -208,7 +234,7 @@ pub fn admissible_orders(strategy: &str, n: usize) -> Vec<Vec<usize>> {
 
 /// `Some(true)`: every admissible variant reaches a definitive response strictly before the
 /// deadline (a definitive result is demanded). `Some(false)`: not demanded. `None`: unjudged.
-pub fn must_be_definitive(servers: &[Srv], strategy: &str, conc: usize, t_ms: u64, alive0: &[bool]) -> Option<bool> {
+pub fn must_be_definitive(servers: &[Srv], strategy: &str, conc: usize, t_ms: u64, alive0: &[u8]) -> Option<bool> {
     let mut all = true;
     // one choice bit per scripted reset (at most 6; later resets are not re-attempted)
     let resets: usize = servers
